@@ -637,8 +637,9 @@ class Flow:
                     self.write_log = prev_log
                 if W <= H:
                     return H
+                last_new = W - H
                 H |= W
-            raise FrontEndError('loop frame discovery did not converge')
+            raise FrontEndError('loop frame discovery did not converge: still growing by %s' % sorted((exe.obj_by_id[o].name, k) for (o, k) in last_new)[:6])
         finally:
             self.discovery -= 1
             exe.errors = saved_errors
